@@ -44,26 +44,222 @@ Lemma push_keeps o m : frames (push o m) = frames o /\ exists tail, cur (push o 
 Proof. split; [reflexivity|]. eexists. reflexivity. Qed.
 End F.
 
-(* ================= sinks and cores ================= *)
+(* ================= sinks, combinators and cores ================= *)
 Section ScoreInd.
   Variable P : score -> Prop.
-  Hypotheses (HL : forall id con outs, P (SLeaf id con outs)) (HT : forall l, Forall P l -> P (STee l)) (HW : forall c, P c -> P (SWrap c)).
+  Hypotheses (HL : forall con w, P (SLeaf con w)) (HT : forall l, Forall P l -> P (STee l)) (HW : forall c, P c -> P (SWrap c)).
   Fixpoint score_ind' (c : score) : P c :=
     match c with
-    | SLeaf id con outs => HL id con outs
+    | SLeaf con w => HL con w
     | STee l => HT l ((fix go (l : list score) : Forall P l :=
                          match l with [] => Forall_nil _ | x :: r => Forall_cons _ (score_ind' x) (go r) end) l)
     | SWrap c => HW c (score_ind' c)
     end.
 End ScoreInd.
+Section WsyInd.
+  Variable P : wsy -> Prop.
+  Hypotheses (HS : forall id outs, P (WSink id outs)) (HP : forall w, P w -> P (WPass w)) (HN : forall w, P w -> P (WNoSync w))
+    (HM : forall l, Forall P l -> P (WMulti l)) (HB : forall w, P w -> P (WBuf w)).
+  Fixpoint wsy_ind' (w : wsy) : P w :=
+    match w with
+    | WSink id outs => HS id outs
+    | WPass w => HP w (wsy_ind' w)
+    | WNoSync w => HN w (wsy_ind' w)
+    | WMulti l => HM l ((fix go (l : list wsy) : Forall P l :=
+                           match l with [] => Forall_nil _ | x :: r => Forall_cons _ (wsy_ind' x) (go r) end) l)
+    | WBuf w => HB w (wsy_ind' w)
+    end.
+End WsyInd.
 
-Definition leaf_events (line : bool -> bytes) (hi : bool) (k : nat) (l : lf) : list ev :=
-  match werr (out_at (l_outs l) k) with
-  | Some _ => [EvW (l_id l) (line (l_con l))]
-  | None => EvW (l_id l) (line (l_con l)) :: (if hi then [EvS (l_id l)] else [])
+(* ---- the first index at which something holds ---- *)
+Lemma find_agree (f g : nat -> bool) : forall n s, (forall j, (j < s)%nat -> g j = false) ->
+  (forall j, (forall j', (j' < j)%nat -> g j' = false) -> f j = g j) -> find f (seq s n) = find g (seq s n).
+Proof.
+  induction n as [|n IH]; intros s Hs H; [reflexivity|]. cbn [seq find]. rewrite (H s Hs).
+  destruct (g s) eqn:E; [reflexivity|]. apply IH; [|exact H].
+  intros j Hj. destruct (Nat.eq_dec j s) as [->|Ne]; [exact E|apply Hs; lia].
+Qed.
+Lemma find_seq_some (g : nat -> bool) : forall n s j, find g (seq s n) = Some j ->
+  (forall j', (s <= j' < j)%nat -> g j' = false) /\ g j = true /\ (s <= j < s + n)%nat.
+Proof.
+  induction n as [|n IH]; intros s j H; [discriminate|]. cbn [seq find] in H. destruct (g s) eqn:E.
+  - injection H as <-. split; [intros j' Hj; lia|]. split; [exact E|lia].
+  - destruct (IH (S s) j H) as (H1 & H2 & H3). split; [|split; [exact H2|lia]].
+    intros j' Hj. destruct (Nat.eq_dec j' s) as [->|Ne]; [exact E|apply H1; lia].
+Qed.
+Lemma find_seq_none (g : nat -> bool) : forall n s, find g (seq s n) = None -> forall j, (s <= j < s + n)%nat -> g j = false.
+Proof.
+  induction n as [|n IH]; intros s H j Hj; [lia|]. cbn [seq find] in H. destruct (g s) eqn:E; [discriminate|].
+  destruct (Nat.eq_dec j s) as [->|Ne]; [exact E|apply (IH (S s) H); lia].
+Qed.
+Lemma find_seq_none_intro (g : nat -> bool) : forall n s, (forall j, (s <= j < s + n)%nat -> g j = false) -> find g (seq s n) = None.
+Proof.
+  induction n as [|n IH]; intros s H; [reflexivity|]. cbn [seq find]. rewrite (H s) by lia. apply IH. intros j Hj. apply H. lia.
+Qed.
+
+(* ---- what the sinks behind a combinator return when all of them are reached ---- *)
+Definition raw_all (g : list (list outcome1)) (j : nat) : list bytes := flat_map (fun outs => raw_err outs j) g.
+Definition ws_raw (j : nat) (w : wsy) : list bytes := raw_all (ws_outs w) j.
+Definition multi_errs (k : nat) := fix go (l : list wsy) : list bytes := match l with [] => [] | x :: r => ws_errs k x ++ go r end.
+Definition multi_writes (p : bytes) (k : nat) := fix go (l : list wsy) : list ev := match l with [] => [] | x :: r => ws_writes p k x ++ go r end.
+Definition multi_syncs := fix go (l : list wsy) : list ev := match l with [] => [] | x :: r => ws_syncs x ++ go r end.
+Definition multi_outs := fix go (l : list wsy) := match l with [] => [] | x :: r => ws_outs x ++ go r end.
+Definition multi_sinks (g : option (list (list outcome1))) (sync : bool) := fix go (l : list wsy) := match l with [] => [] | x :: r => ws_sinks g sync x ++ go r end.
+
+Lemma fails_at_raw g j : fails_at g j = nonnil (raw_all g j).
+Proof.
+  unfold fails_at, raw_all, nonnil. induction g as [|outs r IH]; [reflexivity|]. cbn [existsb flat_map]. unfold raw_err at 1.
+  destruct (werr (out_at outs j)); [reflexivity|]. cbn [orb app]. exact IH.
+Qed.
+Lemma raw_all_app g1 g2 j : raw_all (g1 ++ g2) j = raw_all g1 j ++ raw_all g2 j.
+Proof. unfold raw_all. apply flat_map_app. Qed.
+
+(* as long as no sink behind w has failed in an earlier round, every combinator is transparent:
+   Write returns exactly the errors of this round's sink calls ... *)
+Lemma ws_errs_fresh : forall w k, (forall j, (j < k)%nat -> ws_raw j w = []) -> ws_errs k w = ws_raw k w.
+Proof.
+  apply (wsy_ind' (fun w => forall k, (forall j, (j < k)%nat -> ws_raw j w = []) -> ws_errs k w = ws_raw k w)).
+  - intros id outs k _. unfold ws_raw, raw_all. cbn [ws_errs ws_outs flat_map]. now rewrite app_nil_r.
+  - intros w IH k H. exact (IH k H).
+  - intros w IH k H. exact (IH k H).
+  - intros l Hl k H. change (ws_errs k (WMulti l)) with (multi_errs k l). unfold ws_raw in *. change (ws_outs (WMulti l)) with (multi_outs l) in *.
+    induction Hl as [|x r Hx _ IH]; [reflexivity|]. cbn [multi_errs multi_outs] in *. rewrite raw_all_app.
+    assert (H1 : forall j, (j < k)%nat -> raw_all (ws_outs x) j = [] /\ raw_all (multi_outs r) j = []).
+    { intros j Hj. specialize (H j Hj). rewrite raw_all_app in H. now apply app_eq_nil in H. }
+    rewrite (Hx k (fun j Hj => proj1 (H1 j Hj))), (IH (fun j Hj => proj2 (H1 j Hj))). reflexivity.
+  - intros w IH k H. cbn [ws_errs]. change (ws_raw k (WBuf w)) with (ws_raw k w).
+    assert (Hf : find (fun j => nonnil (ws_errs j w)) (seq 0 k) = None).
+    { apply find_seq_none_intro. intros j Hj. rewrite (IH j) by (intros j' Hj'; apply (H j'); lia).
+      change (ws_raw j w) with (ws_raw j (WBuf w)). rewrite (H j) by lia. reflexivity. }
+    rewrite Hf. exact (IH k H).
+Qed.
+(* ... and every sink behind it is written *)
+Fixpoint ws_ids (w : wsy) {struct w} : list Z :=
+  match w with
+  | WSink id _ => [id]
+  | WPass w => ws_ids w
+  | WNoSync w => ws_ids w
+  | WMulti l => (fix go (l : list wsy) := match l with [] => [] | x :: r => ws_ids x ++ go r end) l
+  | WBuf w => ws_ids w
   end.
-Definition leaf_errs (k : nat) (l : lf) : list bytes :=
-  match werr (out_at (l_outs l) k) with Some m => [m] | None => [] end.
+Definition multi_ids := fix go (l : list wsy) := match l with [] => [] | x :: r => ws_ids x ++ go r end.
+Lemma ws_writes_fresh p : forall w k, (forall j, (j < k)%nat -> ws_raw j w = []) -> ws_writes p k w = map (fun id => EvW id p) (ws_ids w).
+Proof.
+  apply (wsy_ind' (fun w => forall k, (forall j, (j < k)%nat -> ws_raw j w = []) -> ws_writes p k w = map (fun id => EvW id p) (ws_ids w))).
+  - reflexivity.
+  - intros w IH k H. exact (IH k H).
+  - intros w IH k H. exact (IH k H).
+  - intros l Hl k H. change (ws_writes p k (WMulti l)) with (multi_writes p k l). change (ws_ids (WMulti l)) with (multi_ids l).
+    unfold ws_raw in *. change (ws_outs (WMulti l)) with (multi_outs l) in *.
+    induction Hl as [|x r Hx _ IH]; [reflexivity|]. cbn [multi_writes multi_outs multi_ids] in *. rewrite map_app.
+    assert (H1 : forall j, (j < k)%nat -> raw_all (ws_outs x) j = [] /\ raw_all (multi_outs r) j = []).
+    { intros j Hj. specialize (H j Hj). rewrite raw_all_app in H. now apply app_eq_nil in H. }
+    rewrite (Hx k (fun j Hj => proj1 (H1 j Hj))), (IH (fun j Hj => proj2 (H1 j Hj))). reflexivity.
+  - intros w IH k H. cbn [ws_writes ws_ids].
+    assert (Hf : find (fun j => nonnil (ws_errs j w)) (seq 0 k) = None).
+    { apply find_seq_none_intro. intros j Hj. rewrite (ws_errs_fresh w j) by (intros j' Hj'; apply (H j'); lia).
+      change (ws_raw j w) with (ws_raw j (WBuf w)). rewrite (H j) by lia. reflexivity. }
+    rewrite Hf. exact (IH k H).
+Qed.
+(* the first round in which a write behind a BufferedWriteSyncer fails is the first round in which
+   one of the sinks behind it fails *)
+Lemma buf_find w k : find (fun j => nonnil (ws_errs j w)) (seq 0 k) = find (fails_at (ws_outs w)) (seq 0 k).
+Proof.
+  apply find_agree; [intros j Hj; lia|]. intros j Hj. rewrite fails_at_raw. f_equal. apply ws_errs_fresh.
+  intros j' Hj'. specialize (Hj j' Hj'). rewrite fails_at_raw in Hj. unfold ws_raw. destruct (raw_all (ws_outs w) j'); [reflexivity|discriminate].
+Qed.
+Lemma first_fail_fresh g k j : find (fails_at g) (seq 0 k) = Some j -> forall j', (j' < j)%nat -> raw_all g j' = [].
+Proof.
+  intros H j' Hj'. destruct (find_seq_some _ _ _ _ H) as (H1 & _ & _). specialize (H1 j' ltac:(lia)). rewrite fails_at_raw in H1.
+  destruct (raw_all g j'); [reflexivity|discriminate].
+Qed.
+Lemma no_fail_fresh g k : find (fails_at g) (seq 0 k) = None -> forall j', (j' < k)%nat -> raw_all g j' = [].
+Proof.
+  intros H j' Hj'. pose proof (find_seq_none _ _ _ H j' ltac:(lia)) as H1. rewrite fails_at_raw in H1.
+  destruct (raw_all g j'); [reflexivity|discriminate].
+Qed.
+
+(* the round whose outcomes a sink answers with *)
+Definition eff (g : option (list (list outcome1))) (k : nat) : nat :=
+  match g with Some g => match find (fails_at g) (seq 0 k) with Some j => j | None => k end | None => k end.
+Definition reached (g : option (list (list outcome1))) (k : nat) : bool :=
+  match g with Some g => match find (fails_at g) (seq 0 k) with Some _ => false | None => true end | None => true end.
+Definition sk_w (p : bytes) (k : nat) (s : sk) : list ev := if sk_reached k s then [EvW (s_id s) p] else [].
+Definition sk_s (s : sk) : list ev := if s_sync s then [EvS (s_id s)] else [].
+
+(* sinks behind an outer buffer: all of them answer with the same round *)
+Lemma guarded_errs g k : forall w sync, flat_map (sk_errs k) (ws_sinks (Some g) sync w) = ws_raw (eff (Some g) k) w.
+Proof.
+  apply (wsy_ind' (fun w => forall sync, flat_map (sk_errs k) (ws_sinks (Some g) sync w) = ws_raw (eff (Some g) k) w)).
+  - intros id outs sync. unfold ws_raw, raw_all. cbn [ws_sinks ws_outs flat_map]. reflexivity.
+  - intros w IH sync. exact (IH sync).
+  - intros w IH sync. exact (IH false).
+  - intros l Hl sync. change (ws_sinks (Some g) sync (WMulti l)) with (multi_sinks (Some g) sync l).
+    unfold ws_raw. change (ws_outs (WMulti l)) with (multi_outs l).
+    induction Hl as [|x r Hx _ IH]; [reflexivity|]. cbn [multi_sinks multi_outs]. rewrite flat_map_app, raw_all_app, (Hx sync), IH. reflexivity.
+  - intros w IH sync. exact (IH sync).
+Qed.
+Lemma guarded_writes p g k : forall w sync,
+  flat_map (sk_w p k) (ws_sinks (Some g) sync w) = if reached (Some g) k then map (fun id => EvW id p) (ws_ids w) else [].
+Proof.
+  apply (wsy_ind' (fun w => forall sync, flat_map (sk_w p k) (ws_sinks (Some g) sync w) = if reached (Some g) k then map (fun id => EvW id p) (ws_ids w) else [])).
+  - intros id outs sync. cbn [ws_sinks flat_map ws_ids map]. unfold sk_w, sk_reached, frozen, reached. cbn [s_guard s_id].
+    destruct (find (fails_at g) (seq 0 k)); reflexivity.
+  - intros w IH sync. exact (IH sync).
+  - intros w IH sync. exact (IH false).
+  - intros l Hl sync. change (ws_sinks (Some g) sync (WMulti l)) with (multi_sinks (Some g) sync l). change (ws_ids (WMulti l)) with (multi_ids l).
+    induction Hl as [|x r Hx _ IH]; [now destruct (reached (Some g) k)|]. cbn [multi_sinks multi_ids]. rewrite flat_map_app, (Hx sync), IH.
+    destruct (reached (Some g) k); [now rewrite map_app|reflexivity].
+  - intros w IH sync. exact (IH sync).
+Qed.
+
+(* Write through any stack of combinators = the property's reading over the flattened sinks *)
+Lemma ws_errs_spec k : forall w sync, ws_errs k w = flat_map (sk_errs k) (ws_sinks None sync w).
+Proof.
+  apply (wsy_ind' (fun w => forall sync, ws_errs k w = flat_map (sk_errs k) (ws_sinks None sync w))).
+  - intros id outs sync. cbn [ws_errs ws_sinks flat_map]. unfold sk_errs, frozen. cbn [s_guard s_outs]. now rewrite app_nil_r.
+  - intros w IH sync. exact (IH sync).
+  - intros w IH sync. exact (IH false).
+  - intros l Hl sync. change (ws_errs k (WMulti l)) with (multi_errs k l). change (ws_sinks None sync (WMulti l)) with (multi_sinks None sync l).
+    induction Hl as [|x r Hx _ IH]; [reflexivity|]. cbn [multi_errs multi_sinks]. rewrite flat_map_app, <- (Hx sync), <- IH. reflexivity.
+  - intros w _ sync. cbn [ws_errs ws_sinks]. rewrite guarded_errs, buf_find. unfold eff.
+    destruct (find (fails_at (ws_outs w)) (seq 0 k)) as [j|] eqn:E.
+    + apply ws_errs_fresh. exact (first_fail_fresh _ _ _ E).
+    + apply ws_errs_fresh. exact (no_fail_fresh _ _ E).
+Qed.
+Lemma ws_writes_spec p k : forall w sync, ws_writes p k w = flat_map (sk_w p k) (ws_sinks None sync w).
+Proof.
+  apply (wsy_ind' (fun w => forall sync, ws_writes p k w = flat_map (sk_w p k) (ws_sinks None sync w))).
+  - intros id outs sync. reflexivity.
+  - intros w IH sync. exact (IH sync).
+  - intros w IH sync. exact (IH false).
+  - intros l Hl sync. change (ws_writes p k (WMulti l)) with (multi_writes p k l). change (ws_sinks None sync (WMulti l)) with (multi_sinks None sync l).
+    induction Hl as [|x r Hx _ IH]; [reflexivity|]. cbn [multi_writes multi_sinks]. rewrite flat_map_app, <- (Hx sync), <- IH. reflexivity.
+  - intros w _ sync. cbn [ws_writes ws_sinks]. rewrite guarded_writes, buf_find. unfold reached.
+    destruct (find (fails_at (ws_outs w)) (seq 0 k)) as [j|] eqn:E; [reflexivity|].
+    apply ws_writes_fresh. exact (no_fail_fresh _ _ E).
+Qed.
+Lemma ws_syncs_spec : forall w g sync, flat_map sk_s (ws_sinks g sync w) = if sync then ws_syncs w else [].
+Proof.
+  apply (wsy_ind' (fun w => forall g sync, flat_map sk_s (ws_sinks g sync w) = if sync then ws_syncs w else [])).
+  - intros id outs g sync. cbn [ws_sinks flat_map ws_syncs]. unfold sk_s. cbn [s_sync s_id]. now destruct sync.
+  - intros w IH g sync. exact (IH g sync).
+  - intros w IH g sync. cbn [ws_sinks ws_syncs]. rewrite (IH g false). now destruct sync.
+  - intros l Hl g sync. change (ws_sinks g sync (WMulti l)) with (multi_sinks g sync l). change (ws_syncs (WMulti l)) with (multi_syncs l).
+    induction Hl as [|x r Hx _ IH]; [now destruct sync|]. cbn [multi_sinks multi_syncs]. rewrite flat_map_app, (Hx g sync), IH. now destruct sync.
+  - intros w IH g sync. cbn [ws_sinks ws_syncs]. apply IH.
+Qed.
+
+Definition leaf_events (line : bool -> bytes) (hi : bool) (k : nat) (l : lf) : list ev := map (xev_ev line) (leaf_shape hi k l).
+Lemma map_flat_map {A B C} (f : B -> C) (g : A -> list B) l : map f (flat_map g l) = flat_map (fun x => map f (g x)) l.
+Proof. induction l as [|x r IH]; [reflexivity|]. cbn [flat_map]. now rewrite map_app, IH. Qed.
+Lemma leaf_events_eq line hi k l :
+  leaf_events line hi k l = flat_map (sk_w (line (l_con l)) k) (l_sinks l) ++ (if is_nil (leaf_errs k l) && hi then flat_map sk_s (l_sinks l) else []).
+Proof.
+  unfold leaf_events, leaf_shape. rewrite map_app, map_flat_map. f_equal.
+  - apply flat_map_ext. intros s. unfold sk_w. now destruct (sk_reached k s).
+  - destruct (is_nil (leaf_errs k l) && hi); [|reflexivity]. rewrite map_flat_map. apply flat_map_ext. intros s. unfold sk_s. now destruct (s_sync s).
+Qed.
 
 Definition tee_write (line : bool -> bytes) (hi : bool) (k : nat) := fix go (l : list score) : list ev * list bytes :=
   match l with
@@ -79,8 +275,9 @@ Lemma core_write_spec line hi k : forall c,
   core_write line hi k c = (flat_map (leaf_events line hi k) (leaves c), flat_map (leaf_errs k) (leaves c)).
 Proof.
   apply score_ind'.
-  - intros id con outs. cbn [core_write leaves flat_map]. unfold leaf_events, leaf_errs. cbn [l_id l_con l_outs].
-    destruct (werr (out_at outs k)); now rewrite !app_nil_r.
+  - intros con w. cbn [core_write leaves flat_map]. rewrite leaf_events_eq. unfold leaf_errs. cbn [l_con l_sinks].
+    rewrite <- (ws_errs_spec k w true), <- (ws_writes_spec (line con) k w true), (ws_syncs_spec w None true), !app_nil_r.
+    destruct (ws_errs k w); cbn [is_nil andb]; [reflexivity|now rewrite app_nil_r].
   - intros l Hl. change (core_write line hi k (STee l)) with (tee_write line hi k l). change (leaves (STee l)) with (tee_leaves l).
     induction Hl as [|x r Hx _ IH]; [reflexivity|]. cbn [tee_write tee_leaves]. rewrite Hx, IH, !flat_map_app. reflexivity.
   - intros c IH. exact IH.
@@ -98,7 +295,7 @@ Lemma accepted_leaves line hi k : forall c,
   flat_map (fun x => snd (core_write line hi k x)) (accepted c) = flat_map (leaf_errs k) (leaves c).
 Proof.
   apply score_ind'.
-  - intros id con outs. cbn [accepted flat_map]. rewrite (core_write_spec line hi k (SLeaf id con outs)). cbn [fst snd]. now rewrite !app_nil_r.
+  - intros con w. cbn [accepted flat_map]. rewrite (core_write_spec line hi k (SLeaf con w)). cbn [fst snd]. now rewrite !app_nil_r.
   - intros l Hl. change (accepted (STee l)) with (tee_accepted l). change (leaves (STee l)) with (tee_leaves l).
     induction Hl as [|x r [H1 H2] _ [I1 I2]]; [split; reflexivity|]. cbn [tee_accepted tee_leaves].
     rewrite !flat_map_app, H1, H2, I1, I2. split; reflexivity.
@@ -108,38 +305,63 @@ Qed.
 (* CheckedEntry.Write: every sink of every accepting core is written exactly once, in order,
    regardless of earlier failures, with the line of its own encoder; all write errors are collected, in order *)
 Theorem sink_events line hi k c : fst (entry_write line hi k c) = spec_events line hi k c.
-Proof. unfold entry_write. rewrite fold_entry. cbn [fst app]. exact (proj1 (accepted_leaves line hi k c)). Qed.
+Proof.
+  unfold entry_write. rewrite fold_entry. cbn [fst app]. rewrite (proj1 (accepted_leaves line hi k c)).
+  unfold spec_events, spec_shape. now rewrite map_flat_map.
+Qed.
 Theorem sink_errs line hi k c : snd (entry_write line hi k c) = spec_write_errs k c.
 Proof. unfold entry_write. rewrite fold_entry. cbn [snd app]. exact (proj2 (accepted_leaves line hi k c)). Qed.
+
+(* a failure is contained: a sink that is not behind a BufferedWriteSyncer - whatever Lock, AddSync,
+   multi-WriteSyncer, CombineWriteSyncers or Open stand between it and its core - is written for every
+   entry, whatever failed in earlier rounds or fails elsewhere in this one; a buffered sink is written
+   as long as no write behind its buffer has failed *)
+Lemma unbuffered_reached k s : s_guard s = None -> sk_reached k s = true.
+Proof. intros H. unfold sk_reached, frozen. now rewrite H. Qed.
+Lemma buffered_reached k s g : s_guard s = Some g -> (forall j, (j < k)%nat -> fails_at g j = false) -> sk_reached k s = true.
+Proof.
+  intros H Hg. unfold sk_reached, frozen. rewrite H. rewrite (find_seq_none_intro (fails_at g) k 0); [reflexivity|].
+  intros j Hj. apply Hg. lia.
+Qed.
+Theorem sink_reached line hi k c l s : In l (leaves c) -> In s (l_sinks l) -> sk_reached k s = true ->
+  In (EvW (s_id s) (line (l_con l))) (fst (entry_write line hi k c)).
+Proof.
+  intros Hl Hs Hr. rewrite sink_events. unfold spec_events, spec_shape. apply in_map_iff. exists (XW (s_id s) (l_con l)). split; [reflexivity|].
+  apply in_flat_map. exists l. split; [exact Hl|]. unfold leaf_shape. apply in_or_app. left.
+  apply in_flat_map. exists s. split; [exact Hs|]. rewrite Hr. now left.
+Qed.
+
+Theorem sink_unbuffered_written line hi k c l s : In l (leaves c) -> In s (l_sinks l) -> s_guard s = None ->
+  In (EvW (s_id s) (line (l_con l))) (fst (entry_write line hi k c)).
+Proof. intros Hl Hs Hg. apply sink_reached; [exact Hl|exact Hs|now apply unbuffered_reached]. Qed.
+Theorem sink_buffered_written line hi k c l s g : In l (leaves c) -> In s (l_sinks l) -> s_guard s = Some g ->
+  (forall j, (j < k)%nat -> fails_at g j = false) ->
+  In (EvW (s_id s) (line (l_con l))) (fst (entry_write line hi k c)).
+Proof. intros Hl Hs Hg Hn. apply sink_reached; [exact Hl|exact Hs|now apply (buffered_reached k s g)]. Qed.
+(* and what the error output is told about a sink that is not buffered is this round's outcome only *)
+Lemma unbuffered_errs k s : s_guard s = None -> sk_errs k s = raw_err (s_outs s) k.
+Proof. intros H. unfold sk_errs, frozen. now rewrite H. Qed.
 
 (* the full statement also asks for Sync failures to be reported; ioCore.Write drops them *)
 Definition sink_full : Prop := forall line hi k c, snd (entry_write line hi k c) = spec_write_errs k c ++ spec_sync_errs hi k c.
 Lemma sink_full_refuted : ~ sink_full.
 Proof.
-  intros H. specialize (H no_line true 0%nat (SLeaf 0 false [{| werr := None; serr := Some [x53] |}])). vm_compute in H. discriminate.
+  intros H. specialize (H no_line true 0%nat (SLeaf false (WSink 0 [{| werr := None; serr := Some [x53] |}]))). vm_compute in H. discriminate.
 Qed.
-Fixpoint no_sync_fault (c : score) {struct c} : bool :=
-  match c with
-  | SLeaf _ _ outs => forallb (fun o => match serr o with Some _ => false | None => true end) outs
-  | STee l => (fix go (l : list score) := match l with [] => true | x :: r => no_sync_fault x && go r end) l
-  | SWrap c => no_sync_fault c
-  end.
-Lemma out_at_serr outs k : forallb (fun o => match serr o with Some _ => false | None => true end) outs = true ->
-  serr (out_at outs k) = None.
+Definition no_serr (outs : list outcome1) : bool := forallb (fun o => match serr o with Some _ => false | None => true end) outs.
+Definition no_sync_fault (c : score) : bool := forallb (fun l => forallb (fun s => no_serr (s_outs s)) (l_sinks l)) (leaves c).
+Lemma out_at_serr outs k : no_serr outs = true -> serr (out_at outs k) = None.
 Proof.
-  unfold out_at. revert k. induction outs as [|o r IH]; intros k H; [destruct k; reflexivity|].
+  unfold out_at, no_serr. revert k. induction outs as [|o r IH]; intros k H; [destruct k; reflexivity|].
   cbn [forallb] in H. apply andb_true_iff in H as [H1 H2]. destruct k as [|k]; cbn [nth]; [destruct (serr o); [discriminate|reflexivity]|now apply IH].
 Qed.
-Lemma no_sync_errs hi k : forall c, no_sync_fault c = true -> spec_sync_errs hi k c = [].
+Lemma no_sync_errs hi k c : no_sync_fault c = true -> spec_sync_errs hi k c = [].
 Proof.
-  intros c H. unfold spec_sync_errs. destruct hi; [|reflexivity].
-  revert c H. apply (score_ind' (fun c => no_sync_fault c = true ->
-    flat_map (fun l => match werr (out_at (l_outs l) k), serr (out_at (l_outs l) k) with None, Some m => [m] | _, _ => [] end) (leaves c) = [])).
-  - intros id con outs H. cbn [leaves flat_map l_outs]. rewrite (out_at_serr outs k H). destruct (werr _); reflexivity.
-  - intros l Hl H. change (leaves (STee l)) with (tee_leaves l).
-    induction Hl as [|x r Hx _ IH]; [reflexivity|]. cbn [no_sync_fault] in H. apply andb_true_iff in H as [H1 H2].
-    cbn [tee_leaves]. rewrite flat_map_app, (Hx H1), (IH H2). reflexivity.
-  - intros c IH H. exact (IH H).
+  intros H. unfold spec_sync_errs. destruct hi; [|reflexivity]. unfold no_sync_fault in H.
+  induction (leaves c) as [|l r IH]; [reflexivity|]. cbn [forallb] in H. apply andb_true_iff in H as [H1 H2].
+  cbn [flat_map]. rewrite (IH H2), app_nil_r. destruct (is_nil (leaf_errs k l)); [|reflexivity].
+  induction (l_sinks l) as [|s q IHs]; [reflexivity|]. cbn [forallb] in H1. apply andb_true_iff in H1 as [G1 G2].
+  cbn [flat_map]. rewrite (IHs G2), app_nil_r. destruct (s_sync s); [|reflexivity]. now rewrite (out_at_serr _ k G1).
 Qed.
 Theorem sink_reported_partial line hi k c : no_sync_fault c = true ->
   snd (entry_write line hi k c) = spec_write_errs k c ++ spec_sync_errs hi k c.
@@ -222,16 +444,12 @@ Proof.
 Qed.
 
 (* the matcher accepts the events the specification lists when every line is acceptable *)
-Lemma match_events_spec ok line hi k : (forall con, ok con (line con) = true) -> forall ls,
-  match_events ok hi k ls (map enc_evp (flat_map (leaf_events line hi k) ls)) = true.
+Lemma match_shape_spec ok line : (forall con, ok con (line con) = true) -> forall xs,
+  match_shape ok xs (map enc_evp (map (xev_ev line) xs)) = true.
 Proof.
-  intros Hok. induction ls as [|l r IH]; [reflexivity|].
-  cbn [flat_map]. unfold leaf_events at 1. cbn [match_events].
-  destruct (werr (out_at (l_outs l) k)) as [m|] eqn:E.
-  - cbn [app map enc_evp sx_nth sx_l nth sx_z]. rewrite !Z.eqb_refl, Hok. cbn [andb]. exact IH.
-  - destruct hi; cbn [app map enc_evp sx_nth sx_l nth sx_z]; rewrite !Z.eqb_refl, Hok; cbn [andb].
-    + rewrite C17.Proofs.sx_eqb_refl. exact IH.
-    + exact IH.
+  intros Hok. induction xs as [|x r IH]; [reflexivity|]. destruct x as [id con|id]; cbn [map xev_ev enc_evp match_shape sx_nth sx_l nth sx_z].
+  - rewrite !Z.eqb_refl, Hok. cbn [andb]. exact IH.
+  - rewrite C17.Proofs.sx_eqb_refl. exact IH.
 Qed.
 Lemma seq_rows c ctxs t : q_nil_caller_guard c = true -> q_layout_escaped c = true -> forallb wf_flds ctxs = true ->
   no_sync_fault t = true -> forall es k, forallb wf_pent es = true ->
@@ -242,7 +460,7 @@ Proof.
   cbn [mapi_from map match_rows]. rewrite (IH (S k) W2), andb_true_r.
   unfold enc_row. cbn [sx_nth sx_l nth].
   rewrite sink_events, (sink_reported_partial _ (p_hi e) k t Hs), !C17.Proofs.sx_eqb_refl, !andb_true_r.
-  apply (match_events_spec _ (pent_line c ctxs e)). intros con. now apply seq_entry_intact.
+  unfold spec_events. apply (match_shape_spec _ (pent_line c ctxs e)). intros con. now apply seq_entry_intact.
 Qed.
 Lemma seq_wire i : C10.Model.wf i = true -> sx_z (sx_nth i 0) <> 0%Z -> sx_z (sx_nth i 0) <> 1%Z ->
   no_sync_fault (seq_tree i) = true -> spec_seq i (model_seq i) = true.
